@@ -4,8 +4,37 @@ import random
 
 import gen_glob as GG
 import gen_mapper as GM
+import genproof
 import mapper_engine as ME
 import vf
+
+MAPPER_FIELDS = ["pkg/mapper.MetricMapper.Defaults", "pkg/mapper.MetricMapper.Mappings", "pkg/mapper.MetricMapper.FSM",
+                 "pkg/mapper.MetricMapper.doFSM", "pkg/mapper.MetricMapper.doRegex", "pkg/mapper.MetricMapper.cache"]
+
+
+def lock_obligation(rep, tier):
+    """the concurrent clause: generated obligation C14_mapper_fields_locked + lookups racing with a reloader"""
+    ok, log = genproof.regenerate()
+    if not ok:
+        rep.violation("the access table could not be regenerated from /repo", dict(log=log), no_input=True)
+        return
+    ok, out = genproof.compile_obligation("C14_locks.v")
+    scen = ["mapper lru 3 4 150", "mapper none 0 4 100"] if tier == "quick" else ["mapper lru 3 8 1500", "mapper rr 2 8 1500", "mapper none 0 8 1000"]
+    n, text = genproof.race_hunt(scen)
+    rep.extra["lock_obligation"] = "C14_mapper_fields_locked " + ("checked" if ok else "FAILED")
+    rep.extra["race_reports"] = n
+    mixed = [ln for ln in (text or "").splitlines() if "mixed=" in ln and "mixed=0" not in ln]
+    if not ok:
+        sites = genproof.unlocked_sites(MAPPER_FIELDS, "MetricMapper.mutex")
+        if n or mixed:
+            rep.violation("a lookup can observe a reload in progress: fields swapped by a reload are accessed outside the mapper's lock",
+                          dict(unlocked_sites=sites, race_report=text[:3000], scenarios=scen))
+        else:
+            rep.violation("generated obligation C14_mapper_fields_locked no longer checks", dict(unlocked_sites=sites, theorem="coq/theories/Properties/C14_locks.v", coqc=out[-800:]), no_input=True)
+    elif mixed:
+        rep.violation("a lookup racing with a reload was answered by a mixture of two configurations", dict(output=text[:2000], scenarios=scen))
+    elif n:
+        rep.violation("the race detector reports a data race between lookups and a reload", dict(race_report=text[:3000], scenarios=scen))
 
 TRUSTED = [
     "Coq 8.16.1 kernel; Properties/C14.v: the mapper (with or without cache) refines 'the last configuration that loaded answers every lookup'; an invalid configuration leaves the state untouched; a valid one answers exactly like a fresh mapper",
@@ -109,4 +138,6 @@ def run(rep, tier, seed, replay):
             break
     rep.extra["disagreements_with_model"] = nbad
     rep.extra["config_classes"] = classes
+    if not replay:
+        lock_obligation(rep, tier)
     rep.sample(dict(case=cases[0][:600], impl=impl[0][:8]))
